@@ -48,6 +48,8 @@ pub fn session_job(job: &J) -> J {
             settings = settings.with_execution_limit(Duration::from_millis(ms));
         }
         settings.run_tests = job2.get("run_tests").and_then(|v| v.as_bool()).unwrap_or(true);
+        settings.vm_settings.run_import_tests =
+            job2.get("run_import_tests").and_then(|v| v.as_bool()).unwrap_or(true);
         let mut koto = Koto::with_settings(settings);
         let mut steps = Vec::new();
         let empty = Vec::new();
@@ -60,7 +62,10 @@ pub fn session_job(job: &J) -> J {
             let result: Result<KValue, koto::Error> = match kind {
                 "run" => {
                     let src = op.get("src").and_then(|v| v.as_str()).unwrap_or("");
-                    koto.compile_and_run(src)
+                    match op.get("path").and_then(|v| v.as_str()) {
+                        Some(path) => koto.compile_and_run(CompileArgs::new(src).script_path(path)),
+                        None => koto.compile_and_run(src),
+                    }
                 }
                 "call" => {
                     let name = op.get("name").and_then(|v| v.as_str()).unwrap_or("");
@@ -110,6 +115,23 @@ pub fn session_job(job: &J) -> J {
             step["stdout"] = J::String(cap.take());
             let (d, r, b, q, t) = koto.verif_vm().verif_state();
             step["state"] = json!({"vm": koto.verif_vm().verif_id(), "d": d, "r": r, "b": b, "q": q, "t": t});
+            if op.get("dump_exports").and_then(|v| v.as_bool()).unwrap_or(false) {
+                let names: Vec<String> = koto
+                    .exports()
+                    .data()
+                    .keys()
+                    .map(|k| match k.value() {
+                        KValue::Str(s) => s.to_string(),
+                        _ => "?".to_string(),
+                    })
+                    .collect();
+                let mut m = serde_json::Map::new();
+                for n in names {
+                    let v = show(&mut koto, &n);
+                    m.insert(n, v);
+                }
+                step["exports"] = J::Object(m);
+            }
             step["x"] = show(&mut koto, "x");
             step["lst"] = show(&mut koto, "lst");
             steps.push(step);
